@@ -6,6 +6,8 @@ invariants on the live object and compares it with a freshly constructed Domain.
 outputs are compared with the dense reference matrices of refmodel (independent of scipy).
 """
 import copy
+import json
+import os
 import math
 import pickle
 
@@ -16,6 +18,7 @@ from pyPRISM.core.Domain import Domain
 from pyPRISM.core.MatrixArray import MatrixArray
 from pyPRISM.core.Space import Space
 
+from .. import core
 from .. import suite as SUITE
 from .. import refmodel as R
 
@@ -152,6 +155,8 @@ def draw_spacing(rng):
 
 
 def cases(ctx):
+    if ctx.mine(2):
+        yield {'kind': 'reload'}
     if ctx.mine(1):
         yield {'kind': 'repo_suite'}          # the repository's own tests, run in-process under this check's monitors
     rng = ctx.rng('c07')
@@ -169,6 +174,11 @@ def cases(ctx):
                     continue
                 yield {'ctor': ctor, 'L': L, 'sp': sp, 'ops': [['length', 2 * L]] if L % 2 else [], 'arr': 'rand',
                        'aseed': idx, 'rank': 1 + idx % 3}
+    for big in (46341, 50000, 65536):
+        idx += 1
+        if ctx.mine(idx):
+            # lengths whose square does not fit into 32 bits, handed over as np.int32 (aseed % 5 == 3)
+            yield {'ctor': ['dr', 'dk'][big % 2], 'L': big, 'sp': 0.05, 'ops': [], 'arr': 'smooth', 'aseed': 5 * big + 3, 'rank': 1}
     for it in range(n):
         ops = []
         for _ in range(int(rng.integers(0, 7)) if rng.random() < 0.8 else 0):
@@ -192,17 +202,103 @@ def make_array(kind, L, rng, x):
     return a
 
 
+RELOAD_SCRIPT = r"""
+import importlib, json, sys, warnings
+warnings.simplefilter('ignore')
+import numpy as np
+import pyPRISM
+import pyPRISM.core.Space
+obs = {}
+d = pyPRISM.Domain(length=64, dr=0.1)
+def mk(space):
+    return pyPRISM.MatrixArray(length=64, rank=2, data=np.ones((64, 2, 2)), space=space, types=['A', 'B'])
+Space = pyPRISM.Space
+for phase in ('before', 'after'):
+    if phase == 'after':
+        importlib.reload(pyPRISM.core.Space)          # e.g. IPython %autoreload while Domain and MatrixArray stay loaded
+    m = mk(Space.Real)
+    try:
+        d.MatrixArray_to_fourier(m)
+        obs[phase + ':forward_flag_is_fourier'] = bool(m.space == Space.Fourier)
+    except Exception as e:
+        obs[phase + ':forward_raised'] = type(e).__name__
+    m2 = mk(Space.Real)
+    try:
+        d.MatrixArray_to_real(m2)
+        obs[phase + ':to_real_accepts_real_array'] = True
+    except Exception:
+        obs[phase + ':to_real_accepts_real_array'] = False
+    m3 = mk(Space.Fourier)
+    try:
+        d.MatrixArray_to_fourier(m3)
+        obs[phase + ':to_fourier_accepts_fourier_array'] = True
+    except Exception:
+        obs[phase + ':to_fourier_accepts_fourier_array'] = False
+    a, b = mk(Space.Real), mk(Space.Real)
+    d.MatrixArray_to_fourier(a) if not obs.get(phase + ':forward_raised') else None
+    try:
+        d.MatrixArray_to_fourier(b)
+        (a + b)
+        obs[phase + ':arithmetic_between_two_transformed_arrays'] = True
+    except Exception as e:
+        obs[phase + ':arithmetic_between_two_transformed_arrays'] = type(e).__name__
+print('OBS ' + json.dumps(obs))
+"""
+
+
+def run_reload(ctx, case):
+    """a reload of pyPRISM.core.Space (an interactive session with autoreload) while Domain and MatrixArray stay loaded: arrays created
+    before and after must still be transformed, refused and flagged as before.  Runs in a subprocess: a reload is not undone."""
+    import subprocess
+    import sys as _sys
+    env = dict(os.environ, PYTHONPATH=core.REPO, PYTHONWARNINGS='ignore')
+    p = subprocess.run([_sys.executable, '-c', RELOAD_SCRIPT], env=env, stdout=subprocess.PIPE, stderr=subprocess.STDOUT, universal_newlines=True, timeout=120)
+    line = [l for l in p.stdout.splitlines() if l.startswith('OBS ')]
+    if not line:
+        raise core.HarnessError('C07 reload probe produced no observation: %s' % p.stdout[-300:])
+    obs = json.loads(line[0][4:])
+    ctx.hook('module_reload_probe')
+    want = {'forward_flag_is_fourier': True, 'to_real_accepts_real_array': False, 'to_fourier_accepts_fourier_array': False, 'arithmetic_between_two_transformed_arrays': True}
+    for phase in ('before', 'after'):
+        for k, v in want.items():
+            got = obs.get('%s:%s' % (phase, k), obs.get('%s:forward_raised' % phase))
+            if got != v:
+                ctx.violation('ma-transform-after-module-reload:%s' % k if phase == 'after' else 'ma-transform-subprocess-baseline:%s' % k,
+                              '%s reloading pyPRISM.core.Space: %s is %r, expected %r' % (phase, k, got, v))
+    ctx.nontrivial(['reload'])
+
+
 def run_case(ctx, case):
+    if case.get('kind') == 'reload':
+        return run_reload(ctx, case)
     if case.get('kind') == 'repo_suite':
         return SUITE.run(ctx, pattern='[!C]*_test.py')       # everything but the CalcPRISM tests (17 s of solving that adds no events here)
     rng = np.random.default_rng(case['aseed'])
     L0, sp = int(case['L']), float(case['sp'])
+    # the number of points is often a numpy integer (len of an array, a value read from a file header): int16 / int32 / int64 carriers
+    carrier = [int, int, np.int64, np.int32, np.int16][case['aseed'] % 5]
+    ilen = (lambda v: carrier(v)) if (carrier is not np.int16 or max([L0] + [int(v) for o, v in case['ops'] if o == 'length']) < 32000) else int
+    ctx.count('length_carrier', carrier.__name__ if ilen is not int else 'int')
+    L0 = ilen(L0)
     if case['aseed'] % 4 == 1:
         # positional arguments, in the documented order (length, dr, dk)
         d = Domain(L0, sp) if case['ctor'] == 'dr' else Domain(L0, None, sp)
         ctx.hook('positional_constructor')
     else:
         d = Domain(length=L0, dr=sp) if case['ctor'] == 'dr' else Domain(length=L0, dk=sp)
+    if case['aseed'] % 16 == 3:
+        # argument validation of the constructor: exactly one of dr, dk
+        ctx.hook('constructor_argument_validation')
+        for kw, what in (({}, 'neither dr nor dk'), ({'dr': sp, 'dk': sp}, 'both dr and dk')):
+            try:
+                _state['depth'] += 1
+                try:
+                    Domain(length=L0, **kw)
+                finally:
+                    _state['depth'] -= 1
+                ctx.violation('constructor-accepts-invalid-arguments', 'Domain(length=%d) with %s did not raise ValueError' % (L0, what))
+            except ValueError:
+                pass
     got_sp = d.dr if case['ctor'] == 'dr' else d.dk
     if d.length != L0 or not abs(got_sp - sp) <= 4 * EPS * sp:
         ctx.violation('constructor-ignores-arguments', 'Domain constructed with length=%d and %s=%r has length=%r and %s=%r' % (L0, case['ctor'], sp, d.length, case['ctor'], got_sp))
@@ -222,7 +318,7 @@ def run_case(ctx, case):
             d = copy.deepcopy(d) if val == 'deepcopy' else (pickle.loads(pickle.dumps(d)) if val == 'pickle' else copy.copy(d))
             ctx.hook('history_continues_on_a_copy')
             continue
-        setattr(d, op, int(val) if op == 'length' else float(val))
+        setattr(d, op, ilen(int(val)) if op == 'length' else float(val))
     for n_, (orig, how) in enumerate(kept):
         ctx.hook('original_after_copy_checked')
         for mech, msg in grid_invariant(orig, 'original of a %s copy' % how) + fresh_equal(orig, 'original of a %s copy' % how):
